@@ -416,7 +416,12 @@ fn check_type(rep: &mut Report, number: u16, tier: Tier, part: u32) {
     }
     // boundary scopes
     let all_sats: Vec<u8> = (1..=64).collect();
-    let shapes: [(usize, usize); 11] = [(1, 1), (64, 1), (32, 2), (16, 4), (8, 8), (4, 16), (5, 12), (21, 3), (9, 7), (63, 1), (2, 32)];
+    // (satellites, signals); the last entries use every recognised signal of the constellation
+    let mut shapes: Vec<(usize, usize)> = vec![(1, 1), (64, 1), (32, 2), (16, 4), (8, 8), (4, 16), (5, 12), (21, 3), (9, 7), (63, 1), (2, 32), (3, 17), (3, 18), (3, 19), (1, 19), (4, 15), (4, 13)];
+    shapes.push((64 / nsig, nsig));
+    shapes.push((1, nsig));
+    shapes.sort();
+    shapes.dedup();
     for (ns, ng) in shapes {
         if ng > nsig {
             continue;
@@ -486,6 +491,27 @@ fn check_type(rep: &mut Report, number: u16, tier: Tier, part: u32) {
             let mut x = m.clone();
             apply(&mut x, Op::SetCellSat(0, 2));
             expect_err(rep, number, &x, "SatelliteMismatch", "satellite rows disagree with cell rows");
+        }
+    }
+    // a satellite listed twice on grids at / near the 64-cell limit (the duplicate must be reported as such,
+    // not as a cell-count problem)
+    for (ns, ng) in [(64usize, 1usize), (16, 4), (8, 8), (12, 5), (32, 2), (63, 1)] {
+        if ng > nsig {
+            continue;
+        }
+        let sats: Vec<u8> = (1..=ns as u8).collect();
+        let sigs: Vec<u8> = table[..ng].iter().map(|e| e.0).collect();
+        let diag: Vec<(u8, u8)> = (0..ns.max(ng)).map(|i| (sats[i % ns], sigs[i % ng])).collect();
+        if let Some(m) = base_message(number, &sats, &sigs, &diag) {
+            let mut x = m.clone();
+            if apply(&mut x, Op::DupSat(ns / 2)) {
+                expect_err(rep, number, &x, "DuplicateSatellite", &format!("duplicate satellite on a {}x{} grid", ns, ng));
+            } else {
+                // the list is full (64 satellites): overwrite one entry with a copy of another instead
+                let mut y = m.clone();
+                apply(&mut y, Op::SetSatId(ns - 1, sats[0]));
+                expect_err(rep, number, &y, "DuplicateSatellite", &format!("duplicate satellite on a full {}x{} grid", ns, ng));
+            }
         }
     }
     // a full grid in which one cell is replaced by a repeat of another (list length = |S|x|G|)
